@@ -884,6 +884,14 @@ func parseNumChannel(o vh.Opts, rng *vh.RNG) *vh.Channel {
 		impl := "err"
 		if err == nil {
 			impl = "ok " + exactRat(v)
+			// only literals whose value is exactly representable are compared (ParseFloat rounds the others): the
+			// exact value of a decimal literal according to math/big, independent of strconv
+			if r, ok := new(big.Rat).SetString(strings.ReplaceAll(tok, "_", "")); ok && !strings.Contains(tok, "/") {
+				if f := new(big.Rat); f.SetFloat64(v) != nil && f.Cmp(r) != 0 {
+					ch.Tag("skipped=not-exactly-representable")
+					return
+				}
+			}
 		}
 		plain := tok != "" && strings.Trim(tok, "0123456789") == "" && (len(tok) == 1 || tok[0] != '0')
 		ch.Add("num "+vh.Hex([]byte(tok)), impl, !plain, "class="+tag)
@@ -1850,10 +1858,14 @@ func e2eEnv(rep *vh.Report, orc *vh.Oracle, shards int, limits limSpec, batches 
 			}
 			if fmtHist(qpr.Histogram) != fmtHist(wantHist) {
 				site := "frac/processor/search.go:iterateEvalTree"
+				class := "histogram-differs-from-documents"
 				if q.async {
 					site = "fracmanager/async_searcher.go:FetchSearchResult"
 				}
-				rep.Violate(vh.Violation{Site: site, Class: "histogram-differs-from-documents",
+				if limits.small() {
+					site, class = "proxy/search/ingestor.go:searchShard", "store-refusal-merged-as-empty-shard"
+				}
+				rep.Violate(vh.Violation{Site: site, Class: class,
 					What: fmt.Sprintf("end to end: got %d buckets want %d buckets (first differing run: %s)", len(qpr.Histogram), len(wantHist), key[:min(len(key), 80)]), Replay: []string{key}})
 			}
 		}
